@@ -349,6 +349,67 @@ func bodyRolling(p *part, seconds int) {
 	}
 }
 
+// hooks: 8 goroutines log through ONE synchronous logger / layout while the three context hooks are set: the
+// time hook returns a different instant per call, the context-fields hook returns the SAME slice with spare
+// capacity to every call (as an application that keeps its base fields in one place does), the context
+// string carries the call's id. Every line must carry the time, context string and own field of ITS call.
+type hookID struct{}
+
+func bodyHooks(p *part, rounds int, layout string) {
+	log.VerifReset()
+	sink := &lockedSink{}
+	log.Stdout = sink
+	base := time.Date(2025, 6, 1, 10, 0, 0, 0, time.UTC)
+	idOf := func(ctx context.Context) int { v, _ := ctx.Value(hookID{}).(int); return v }
+	shared := make([]log.Field, 1, 8)
+	shared[0] = log.String("svc", "base")
+	log.TimeNow = func(ctx context.Context) time.Time { return base.Add(time.Duration(idOf(ctx)) * time.Millisecond) }
+	log.StringFromContext = func(ctx context.Context) string { return fmt.Sprintf("cs-%d", idOf(ctx)) }
+	log.FieldsFromContext = func(ctx context.Context) []log.Field { return shared[:1] }
+	defer func() { log.TimeNow, log.StringFromContext, log.FieldsFromContext = nil, nil, nil }()
+	if err := log.Refresh(map[string]string{"appender.c.type": "Console", "appender.c.layout.type": layout, "logger.root.type": "Logger", "logger.root.level": "INFO", "logger.root.appenderRef.ref": "c"}); err != nil {
+		p.fail("setup", "hooks", err.Error())
+		return
+	}
+	var wg sync.WaitGroup
+	for g := 0; g < 8; g++ {
+		wg.Add(1)
+		go func(g int) {
+			defer wg.Done()
+			for r := 0; r < rounds; r++ {
+				id := 1 + g*rounds + r
+				log.Info(context.WithValue(context.Background(), hookID{}, id), tags[g%2], log.Int("id", id), log.String("own", fmt.Sprintf("own-%d", id)))
+			}
+		}(g)
+	}
+	wg.Wait()
+	log.Destroy()
+	sink.mu.Lock()
+	lines := append([]string(nil), sink.lines...)
+	sink.mu.Unlock()
+	if len(lines) != 8*rounds {
+		p.fail("lines-missing", layout, fmt.Sprintf("%d lines for %d events", len(lines), 8*rounds))
+	}
+	for _, l := range lines {
+		var id int
+		k := "||id="
+		if layout == "JSONLayout" {
+			k = `"id":`
+		}
+		i := strings.Index(l, k)
+		if i < 0 {
+			p.fail("record-not-from-its-call", layout, fmt.Sprintf("line without an id field: %q", l))
+			continue
+		}
+		fmt.Sscanf(l[i+len(k):], "%d", &id)
+		ts := base.Add(time.Duration(id) * time.Millisecond).Format("2006-01-02T15:04:05.000")
+		if !strings.Contains(l, ts) || !strings.Contains(l, fmt.Sprintf("cs-%d", id)) || !strings.Contains(l, fmt.Sprintf("own-%d", id)) || !strings.Contains(l, "base") {
+			p.fail("record-not-from-its-call", layout, fmt.Sprintf("call %d (hook time %s, context string cs-%d, own field own-%d): line %q", id, ts, id, id, l))
+		}
+	}
+	p.Executions += int64(8 * rounds)
+}
+
 // caller: 8 goroutines released together onto the SAME call site with a cold frame cache (the package state is
 // restored before every round), then onto different ones; every record must carry the location of its own
 // statement, in default and in fast mode.
@@ -496,6 +557,14 @@ func main() {
 			for _, pol := range []log.BufferFullPolicy{log.BufferFullPolicyBlock, log.BufferFullPolicyDiscard, log.BufferFullPolicyDiscardOldest} {
 				pol := pol
 				add(fmt.Sprintf("%s/free-running-race/async/policy=%d", strings.ToLower(*prop), pol), fmt.Sprintf("6 producers x %d items (sampling, -race)", rounds*3), func(p *part) { bodyAsync(p, rounds*3, pol) })
+			}
+		case "C08", "C10":
+			for _, lay := range []string{"TextLayout", "JSONLayout"} {
+				if *prop == "C08" && lay != "TextLayout" {
+					continue
+				}
+				lay := lay
+				add(fmt.Sprintf("%s/free-running-race/hooks/%s", strings.ToLower(*prop), lay), fmt.Sprintf("8 goroutines x %d events through one layout, per-call hook time, shared context-field slice with spare capacity (sampling, -race)", rounds), func(p *part) { bodyHooks(p, rounds, lay) })
 			}
 		case "C11":
 			for _, fast := range []bool{false, true} {
